@@ -5,6 +5,7 @@
 import OlricModel.Proto.Codec
 import OlricModel.Proofs.DMapLemmas
 import OlricModel.Generated.Facts
+import OlricModel.Proofs.PipelineProofs
 namespace Olric.C15
 open Olric Olric.DMap Olric.Codec
 
@@ -70,6 +71,95 @@ theorem C15_delete_once (ownerOf : Key → Nat) (groupOrder : List Nat) (keys : 
     rw [ha.2] at e
     exact hnd.1 (e ▸ hm')
 
+/-- **C15 (pipeline, every queue).**  Whatever commands are queued, for whatever partitions, and whatever the
+    partition owners do with one command (`step`): once `Exec` returned, the i-th future reads exactly the reply
+    its command gets when the same commands are issued one at a time, each waiting for its answer. -/
+theorem C15_pipeline_futures {σ κ ρ : Type} (step : σ → κ → σ × ρ) (st : Nat → σ) (q : List (Nat × κ)) :
+    (Pipeline.futures [] q).map (Pipeline.futureResult step st q) = (Pipeline.seqRun step st q).2.map some := by
+  have h := Pipeline.futures_read_seq step st [] q
+  have h0 : Pipeline.execState step st ([] : List (Nat × κ)) = st := by
+    funext x; simp [Pipeline.execState, Pipeline.batch_nil, Pipeline.partRun]
+  simpa [h0] using h
+
+/-- … and the stored state of every partition after `Exec` is the state the one-at-a-time run leaves. -/
+theorem C15_pipeline_state {σ κ ρ : Type} (step : σ → κ → σ × ρ) (st : Nat → σ) (q : List (Nat × κ)) (p : Nat) :
+    Pipeline.execState step st q p = (Pipeline.seqRun step st q).1 p :=
+  Pipeline.execState_eq_seq step st q p
+
+/-- every future has a reply (no index out of range) -/
+theorem C15_pipeline_every_future_answered {σ κ ρ : Type} (step : σ → κ → σ × ρ) (st : Nat → σ) (q : List (Nat × κ)) :
+    ∀ r ∈ (Pipeline.futures [] q).map (Pipeline.futureResult step st q), r ≠ none := by
+  rw [C15_pipeline_futures]; intro r hr; simp only [List.mem_map] at hr; obtain ⟨a, _, rfl⟩ := hr; simp
+
+/-- the index mapping of `pipelineSlots` (the one the example below evaluates) is the one of `Pipeline.futures` -/
+theorem pipelineSlots_eq_futures (partOf : Key → Nat) (keys : List Key) :
+    pipelineSlots partOf keys = Pipeline.futures [] (keys.map (fun k => (partOf k, k))) := by
+  have gen : ∀ (keys : List Key) (A B : List (Nat × Nat)) (q0 : List (Nat × Key)),
+      (∀ p, (B.filter (fun x => x.1 == p)).length = (Pipeline.batch p q0).length) →
+      (keys.foldl (fun (acc : List (Nat × Nat) × List (Nat × Nat)) k =>
+          let p := partOf k
+          let idx := (acc.2.filter (fun x => x.1 == p)).length
+          (acc.1 ++ [(p, idx)], acc.2 ++ [(p, idx)])) (A, B)).1
+        = A ++ Pipeline.futures q0 (keys.map (fun k => (partOf k, k))) := by
+    intro keys
+    induction keys with
+    | nil => intro A B q0 _; simp [Pipeline.futures]
+    | cons k ks ih =>
+      intro A B q0 hB
+      simp only [List.foldl_cons, List.map_cons, Pipeline.futures, Pipeline.add]
+      rw [ih _ _ (q0 ++ [(partOf k, k)])]
+      · rw [hB (partOf k)]; simp
+      · intro p
+        rw [List.filter_append, List.length_append, Pipeline.batch_append, List.length_append, hB p, hB (partOf k)]
+        by_cases e : partOf k = p
+        · subst e; simp [Pipeline.batch]
+        · have : (partOf k == p) = false := by simpa using e
+          simp [Pipeline.batch, this]
+  have := gen keys [] [] [] (by intro p; simp [Pipeline.batch])
+  simpa [pipelineSlots] using this
+
+/-- **C15 (pipeline life cycle).**  A future of an open, not yet executed pipeline answers "not ready"; `Exec` runs
+    once; after a `Discard` every future of an earlier generation answers "closed" whatever happens to the pipeline
+    afterwards; a closed pipeline refuses `Exec` and `Discard`. -/
+inductive LifeOp | exec | discard | close
+  deriving DecidableEq, Repr
+
+def lifeStep (l : Pipeline.Life) : LifeOp → Pipeline.Life
+  | .exec => l.exec.1
+  | .discard => l.discard.1
+  | .close => l.close
+
+theorem lifeStep_gen_mono (l : Pipeline.Life) (o : LifeOp) : l.gen ≤ (lifeStep l o).gen := by
+  cases o
+  · simp only [lifeStep, Pipeline.Life.exec]
+    by_cases hc : l.closed = true
+    · simp [hc]
+    · by_cases he : l.executed = true <;> simp [hc, he]
+  · simp only [lifeStep, Pipeline.Life.discard]
+    by_cases hc : l.closed = true <;> simp [hc]
+  · simp [lifeStep, Pipeline.Life.close]
+
+theorem C15_pipeline_old_futures_closed (l : Pipeline.Life) (g : Nat) (hg : g < l.gen) (ops : List LifeOp) :
+    (ops.foldl lifeStep l).read g = some .closed := by
+  induction ops generalizing l with
+  | nil =>
+    have : (g != l.gen) = true := by simp; omega
+    simp [Pipeline.Life.read, Pipeline.Life.futClosed, this]
+  | cons o os ih => exact ih _ (Nat.lt_of_lt_of_le hg (lifeStep_gen_mono l o))
+
+theorem C15_pipeline_lifecycle (l : Pipeline.Life) :
+    (l.closed = false → l.executed = false → l.read l.gen = some .notReady) ∧
+    (l.closed = false → l.executed = false → l.exec.2 = none ∧ l.exec.1.read l.gen = none ∧ l.exec.1.exec.2 = some .executed) ∧
+    (l.closed = false → l.discard.2 = none ∧ l.discard.1.read l.gen = some .closed ∧
+        l.discard.1.read l.discard.1.gen = some .notReady) ∧
+    (l.close.exec.2 = some .closed ∧ l.close.discard.2 = some .closed ∧ l.close.read l.gen = some .closed) := by
+  refine ⟨?_, ?_, ?_, ?_⟩
+  · intro hc he; simp [Pipeline.Life.read, Pipeline.Life.futClosed, hc, he]
+  · intro hc he; simp [Pipeline.Life.read, Pipeline.Life.futClosed, Pipeline.Life.exec, hc, he]
+  · intro hc; simp [Pipeline.Life.read, Pipeline.Life.futClosed, Pipeline.Life.discard, hc]
+  · simp [Pipeline.Life.read, Pipeline.Life.futClosed, Pipeline.Life.exec, Pipeline.Life.discard, Pipeline.Life.close]
+
+
 /-- **C15 (pipeline).**  The i-th command queued for a partition gets slot i of that partition:
     slots of one partition are 0,1,2,… in queueing order, so every future reads its own reply. -/
 theorem C15_pipeline_slots_example :
@@ -79,10 +169,16 @@ theorem C15_pipeline_slots_example :
 /-- **Tie to the source.** -/
 theorem facts_tie :
     Facts.put_handler_options_independent = true ∧ Facts.expire_forwarded_as_pexpire = true ∧
-    Facts.del_forward_returns_early = false := ⟨rfl, rfl, rfl⟩
+    Facts.del_forward_returns_early = false ∧ Facts.pipeline_future_reads_its_partition_slot = true := ⟨rfl, rfl, rfl, rfl⟩
 
 /-! Non-vacuity -/
 example : ApiCfg { nx := true, ttl := .px 200000000 } := by simp [ApiCfg]
 example : decodePut (encodePut { xx := true, ttl := .exat 1700000000000000000 }) = { xx := true, ttl := .exat 1700000000000000000 } := by decide
+
+/-- a closed run of the pipeline model: two partitions, counters; futures read 1, 10, 3 as the one-at-a-time run answers -/
+example : (Pipeline.futures [] [(0, 1), (1, 10), (0, 2)]).map
+      (Pipeline.futureResult (fun (s : Nat) (c : Nat) => (s + c, s + c)) (fun _ => 0) [(0, 1), (1, 10), (0, 2)])
+    = [some 1, some 10, some 3] := by decide
+example : Pipeline.futures [] [(0, 1), (1, 10), (0, 2)] = [(0, 0), (1, 0), (0, 1)] := by decide
 
 end Olric.C15
